@@ -199,6 +199,11 @@ class Graph(object):
                 return None
             if d.rv.k == "discr" and d.rv.place is not None and d.rv.place.is_local() and d.rv.place.local in self.flags and not neg:
                 return (self.flags.index(d.rv.place.local), "tag")
+            if d.rv.k == "discr" and d.rv.place is not None and not d.rv.place.is_local() and not neg:
+                fs = d.rv.place.fields()
+                key = (d.rv.place.local, fs[-1]) if fs else None
+                if key in self.flags:
+                    return (self.flags.index(key), "tag")
             if d.rv.k == "use" and d.rv.ops[0].place is not None and not d.rv.ops[0].place.is_local():
                 pl = d.rv.ops[0].place
                 fs = pl.fields()
@@ -597,6 +602,15 @@ class Analyzer(object):
             for n, v in e[2]:
                 if n == name:
                     return v
+        if e[0] in ("ref", "deref"):
+            base = e
+            while base[0] in ("ref", "deref"):
+                base = base[1]
+            if base[0] == "agg" and base[1].startswith(("closure:", "coroutine:")):
+                # the environment of a closure literal merged into this body: a captured variable is what was captured
+                for n, v in base[2]:
+                    if n == name:
+                        return v
         if e[0] == "variant":
             inner = e[1]
             if inner[0] == "call" and name == "0":
@@ -626,7 +640,7 @@ class Analyzer(object):
         """value of `x?`: when x is (a merge of) literally constructed results — the return value of a helper merged
         into this body — it is the payload of the Ok/Some alternatives; error alternatives leave through the `?`"""
         leaves = x[1] if x[0] == "phi" else (x,)
-        oks, rest = [], []
+        oks, rest, others = [], [], []
         for l in leaves:
             y = l
             while y[0] in ("ref", "deref"):
@@ -638,10 +652,13 @@ class Analyzer(object):
             elif y[0] == "call" and short(y[1]).endswith("FromResidual::from_residual"):
                 rest.append(y)
             else:
-                return ("try", x)
-        if not oks:
+                others.append(l)
+        if not rest and not oks:
             return ("try", x)
-        return self._phi(oks)
+        if not oks and not others:
+            return ("try", x)
+        # error-only alternatives leave through the `?`; what continues is the Ok payloads and `?` of the opaque alternatives
+        return self._phi(oks + [("try", o) for o in others])
 
     def _phi(self, es):
         flat = []
